@@ -1,4 +1,5 @@
 import OdfProofs.Transform
+import OdfProofs.Transform2
 import OdfProofs.Span
 
 /-!
@@ -6,9 +7,13 @@ import OdfProofs.Span
 
 Grid-level specs in `OdfModel/Transform.lean` (rstrip, transpose) and `OdfModel/Span.lean`
 (set_span / del_span, merge=False).  The run-length code-level model of `Table.rstrip`
-(`tblRstrip`) is executable and compared with the implementation and with the grid spec on
-every case of the check; its refinement proof is not done (PARTIAL): the theorems below are
-about the specs.  `optimize_width` and CSV export/import are decided by the oracle only.
+(`tblRstrip`: trailing empty row ELEMENTS deleted, trailing empty cell ELEMENTS of every row deleted,
+declared columns trimmed from the end) is compared with the implementation on every case of the check,
+and `rstrip_refines` proves that on every coherent run-length state it denotes the grid spec and leaves a
+coherent state — so the three laws below hold of the run-length code-level model too
+(`rstrip_table_idempotent`, `rstrip_table_keeps`).  `transpose` is modelled at the grid level (the code
+works on the expanded cells of `traverse`); `optimize_width` and CSV export/import are decided by the
+oracle only.
 -/
 namespace Odf.C17
 open Odf.Transform Odf.Grid Odf.Span
@@ -36,6 +41,32 @@ theorem rstrip_only_trailing (emp : Nat → Bool) (g : Grid) :
       ∀ (y : Nat) (row' : List Nat), (gridRstrip emp g).rows[y]? = some row' →
         ∃ (row suf : List Nat), g.rows[y]? = some row ∧ row = row' ++ suf ∧ ∀ c ∈ suf, emp c = true :=
   gridRstrip_only_trailing emp g
+
+/-- **`Table.rstrip` on run-length XML refines the grid spec**, for every coherent state (any run-length
+    encoding, ragged rows, styled empties per `emp`), and the result is coherent again -/
+theorem rstrip_refines (emp : Nat → Bool) (t : Odf.Table.Tbl) (h : Odf.Table.Inv t) :
+    Odf.Table.absT (tblRstrip emp t) = gridRstrip emp (Odf.Table.absT t) ∧ Odf.Table.Inv (tblRstrip emp t) :=
+  ⟨tblRstrip_refines emp t h, tblRstrip_inv emp t h⟩
+
+/-- hence stripping the run-length table twice denotes the same grid as stripping it once -/
+theorem rstrip_table_idempotent (emp : Nat → Bool) (t : Odf.Table.Tbl) (h : Odf.Table.Inv t) :
+    Odf.Table.absT (tblRstrip emp (tblRstrip emp t)) = Odf.Table.absT (tblRstrip emp t) := by
+  rw [tblRstrip_refines emp _ (tblRstrip_inv emp t h), tblRstrip_refines emp t h, gridRstrip_idem]
+
+/-- … and every non-empty value of the run-length table is still read at its coordinates -/
+theorem rstrip_table_keeps (emp : Nat → Bool) (t : Odf.Table.Tbl) (h : Odf.Table.Inv t) (x y : Nat) (row : List Nat) (v : Nat)
+    (hrow : (Odf.Table.absT t).rows[y]? = some row) (hv : row[x]? = some v) (hne : emp v = false) :
+    ∃ row', (Odf.Table.absT (tblRstrip emp t)).rows[y]? = some row' ∧ row'[x]? = some v := by
+  rw [tblRstrip_refines emp t h]
+  exact gridRstrip_keeps emp (Odf.Table.absT t) x y row v hrow hv hne
+
+/-! non-vacuity: a ragged run-length table with styled empties (payload 1) and trailing empties -/
+example :
+    let t := Odf.Table.parse [(0, 2), (0, 3)] [([(5, 1), (0, 2), (1, 2)], 2), ([(0, 5)], 1), ([(0, 1), (1, 1)], 3)]
+    Odf.Table.absT (tblRstrip (fun c => c == 0) t) = gridRstrip (fun c => c == 0) (Odf.Table.absT t) ∧
+      (gridRstrip (fun c => c == 0) (Odf.Table.absT t)).ncols = 5 ∧
+      (gridRstrip (fun c => c < 2) (Odf.Table.absT t)) = { ncols := 1, rows := [[5], [5]] } := by
+  decide +kernel
 
 /-- a span never changes a value (merge = False) and touches nothing outside the area -/
 theorem setSpan_values_and_area (g g' : SGrid) (x y z t : Nat) (h : setSpan g x y z t = some g') (j i : Nat) :
